@@ -68,7 +68,60 @@ class ThreadedPool:
         self.tp.terminate()
 
 
-SCHEDULES = ["vec", "scalar", "reversed", "permuted", "threads", "int1", "int2"]
+class FullAPIPool(ThreadedPool):
+    """same threads + delays, but exposes the whole multiprocessing.Pool API; the *unordered* variants really
+    return results in completion order (a library that prefers them must re-associate results itself)."""
+
+    def imap(self, f, xs, chunksize=1):
+        return iter(self.map(f, xs))
+
+    def imap_unordered(self, f, xs, chunksize=1):
+        xs = list(xs)
+        delays = self.rng.random(len(xs)) * 2e-4
+        import queue
+        q = queue.Queue()
+
+        def g(a):
+            i, x = a
+            time.sleep(delays[i])
+            q.put(f(x))
+        self.tp.map(g, list(enumerate(xs)), chunksize=1)
+        return iter([q.get() for _ in xs])
+
+    def map_async(self, f, xs, chunksize=None, callback=None, error_callback=None):
+        res = self.map(f, xs)
+
+        class R:
+            def get(self, timeout=None):
+                return res
+
+            def wait(self, timeout=None):
+                return None
+
+            def ready(self):
+                return True
+
+            def successful(self):
+                return True
+        return R()
+
+    def starmap(self, f, xs, chunksize=None):
+        return self.map(lambda a: f(*a), xs)
+
+    def apply_async(self, f, args=(), kwds=None, callback=None, error_callback=None):
+        v = f(*args, **(kwds or {}))
+
+        class R:
+            def get(self, timeout=None):
+                return v
+        return R()
+
+    @property
+    def _processes(self):
+        return self.n
+
+
+SCHEDULES = ["vec", "scalar", "reversed", "permuted", "threads", "fullapi", "int1", "int2"]
 
 
 def one(cfg, schedule, seed):
@@ -83,7 +136,7 @@ def one(cfg, schedule, seed):
         c["pointwise"] = True
     else:
         c["mode"] = "blobs" if blobs else "scalar"
-        pool = {"scalar": None, "reversed": ReversedPool(), "permuted": PermutedPool(seed + 5), "threads": ThreadedPool(4, seed + 7),
+        pool = {"scalar": None, "reversed": ReversedPool(), "permuted": PermutedPool(seed + 5), "threads": ThreadedPool(4, seed + 7), "fullapi": FullAPIPool(3, seed + 9),
                 "int1": 1, "int2": 2}[schedule]
     c["pool"] = pool
     idblob.SHARED = mp.Value("q", 0)
@@ -131,7 +184,7 @@ def run():
     tasks = []
     for ci, cfg in enumerate(cfgs):
         for r in range(nseeds):
-            sch = SCHEDULES if (r == 0 or not ck.quick) else SCHEDULES[:5]
+            sch = SCHEDULES if (r == 0 or not ck.quick) else SCHEDULES[:6]
             tasks.append(("tvf.checks.c13:group", dict(cfg=cfg, seed=ck.subseed("s", ci, r) % 10 ** 6, schedules=sch), None))
     for i, st, val in farm.run(tasks, timeout=1200, jobs=8, progress="C13"):
         kw = tasks[i][1]
@@ -163,7 +216,7 @@ def run():
                 ck.violation("schedule-changes-result", f"same seed, pointwise identical likelihood: schedule {sc} gives logZ {r['logz']!r} / {r['n_iter']} iterations, "
                              f"schedule {ref[0]} gives {ref[1]['logz']!r} / {ref[1]['n_iter']}", dict(cfg=kw["cfg"], seed=kw["seed"], schedule=sc))
     need = ["runs under schedule vec", "runs under schedule scalar", "runs under schedule reversed", "runs under schedule permuted",
-            "runs under schedule threads", "out-of-order completions observed in the thread pool"]
+            "runs under schedule threads", "runs under schedule fullapi", "out-of-order completions observed in the thread pool"]
     ck.require_events(*need)
     return ck.finish(
         rule="configurations x seeds x evaluation schedules {vectorised (row-by-row identical function), scalar, reversed-order pool object, "
